@@ -121,6 +121,15 @@ def gen_label_array(rng: random.Random):
                 arr[f][c] = lab
     if multiseg:
         arr = arr.reshape((H, T, *shape))
+    # memory layout: C-contiguous, or a view with permuted axes (np.moveaxis / swapaxes of a
+    # stack that was built in another axis order), or every second element of a larger array
+    layout = rng.choice(["C", "C", "moved", "strided"])
+    if layout == "moved" and arr.ndim >= 3:
+        arr = np.moveaxis(np.ascontiguousarray(np.moveaxis(arr, 1, 0)), 0, 1)
+    elif layout == "strided":
+        big = np.zeros((*arr.shape[:-1], arr.shape[-1] * 2), dtype=arr.dtype)
+        big[..., ::2] = arr
+        arr = big[..., ::2]
     return arr, multiseg, pattern, nd
 
 
@@ -136,6 +145,9 @@ def check_unique(rng, acc):
     if any((fr != 0).all() for fr in (arr.reshape((-1, *arr.shape[2:])) if multiseg else arr)):
         acc["counters"]["unique-with-a-frame-without-background"] = \
             acc["counters"].get("unique-with-a-frame-without-background", 0) + 1
+    if not arr.flags["C_CONTIGUOUS"]:
+        acc["counters"]["unique-non-contiguous-input"] = \
+            acc["counters"].get("unique-non-contiguous-input", 0) + 1
     if multiseg and nd == 3:
         acc["counters"]["unique-multiseg-3d"] = acc["counters"].get("unique-multiseg-3d", 0) + 1
     if pattern.count("x") >= 2:
@@ -239,6 +251,25 @@ def check_relabel(rng, acc):
     probs = relabel_problems(times, seg_ids, edges, src, np.asarray(out))
     if not np.array_equal(seg, src):
         probs.append("input segmentation was modified")
+    if not probs and edges and rng.random() < 0.4:
+        # the caller edits the SAME graph object (an edge re-wired: node and edge counts
+        # stay as they are) and relabels again
+        u, v = rng.choice(edges)
+        cands = [w for w in times if w != u and times[w] < times[v] and g.out_degree(w) < 2
+                 and not g.has_edge(w, v)]
+        if cands:
+            w = rng.choice(cands)
+            g.remove_edge(u, v)
+            g.add_edge(w, v)
+            edges = [e for e in edges if e != (u, v)] + [(w, v)]
+            with warnings.catch_warnings():
+                warnings.simplefilter("ignore")
+                out = relabel_segmentation_with_track_id(g, seg)
+            acc["evaluations"] += 1
+            acc["counters"]["relabel-again-after-rewiring"] = \
+                acc["counters"].get("relabel-again-after-rewiring", 0) + 1
+            probs = ["after re-wiring: " + p for p in
+                     relabel_problems(times, seg_ids, edges, src, np.asarray(out))]
     if probs:
         acc["violations"].append({
             "clause": "relabel-by-track", "what": str(probs[:3]),
@@ -272,7 +303,8 @@ def floors(tier):
     return {"unique-cases": 1500, "relabel-cases": 1500, "postcondition-evaluations": 1500,
             "unique-with-empty-frame-before-labels": 300, "relabel-with-division": 200,
             "relabel-with-unused-detections": 300, "unique-multiseg-3d": 100,
-            "unique-with-a-frame-without-background": 100}
+            "unique-with-a-frame-without-background": 100,
+            "unique-non-contiguous-input": 1000, "relabel-again-after-rewiring": 500}
 
 
 def replay(doc):
